@@ -7,6 +7,9 @@ the harness by a cooperative shim so that 'blocked on the lock' is visible to th
      find / _compile_and_find / _compile / the generated finder;
   B  random schedules with yield points on every line of app/request/response/router/media code;
   D  unsupervised stress: real threads, tiny switch interval, many fresh apps.
+  E  ASGI request objects used from worker threads (what a blocking helper run through falcon.sync_to_async() does with
+     its request): header lookups through the process-wide header-name cache at and around its ceiling, exhaustive
+     preemption-bounded schedules at line granularity inside falcon/asgi/request.py.
 Tasks (ASGI): C  the stepped asyncio loop with 2-3 request tasks whose receive()/send() futures complete in
      controller-chosen order (exhaustive for small scripts, random beyond).
 Oracle: the vector of responses must equal the vector obtained by running the same requests one at a time, in
@@ -64,6 +67,10 @@ def narrow_reconf(code):
     if fn.endswith('falcon/media/handlers.py'):
         return True
     return code.co_name == 'na_handler' and fn.endswith('c19.py')
+
+
+def asgi_request_lines(code):
+    return code.co_filename.endswith('falcon/asgi/request.py') and code.co_name != '__init__'
 
 
 # ------------------------------------------------------------------ generated applications
@@ -554,6 +561,87 @@ def safe_serial(rec, build, reqs, call, isolated=True):
         return None
 
 
+# ------------------------------------------------------------------ phase E: ASGI request objects on worker threads
+
+HDR_CEILING_LEVELS = (0, 61, 62, 63, 64, 66)
+
+
+def name_cache_handle():
+    """The process-wide header-name cache of falcon.asgi.Request.get_header, if it still is a default-argument dict
+    (only used to put the process into a known state between schedules, like a fresh process would be)."""
+    import inspect
+    try:
+        prm = inspect.signature(falcon.asgi.Request.get_header).parameters.get('_name_cache')
+    except (TypeError, ValueError):
+        return None
+    if prm is not None and isinstance(prm.default, dict):
+        return prm.default
+    return None
+
+
+async def _never_receive():
+    raise AssertionError('phase E never reads a body')
+
+
+def header_worker(tok, lookups):
+    """One request object per worker; `lookups` = [(name as the application spells it, expected value)]."""
+    headers = [('X-Tok', tok), ('Accept', 'application/json'), ('X-%s' % tok, 'own-' + tok), ('Host', 'h-' + tok)]
+    req = falcon.asgi.Request(A.make_scope('GET', '/e/' + tok, 'q=' + tok, headers), _never_receive)
+    return tuple(req.get_header(nm, default='<absent>') for nm, _ in lookups)
+
+
+def phase_e(rec, sched, quick):
+    cache = name_cache_handle()
+    if cache is None:
+        rec.count('E.cache_not_resettable')
+    serial = [0]
+    cap = 120 if quick else 4000
+    levels = HDR_CEILING_LEVELS if cache is not None else (0,)
+    for li, level in enumerate(levels):
+        for nthreads, maxp in ((2, 2), (3, 1)) if not quick else ((2, 2),):
+            def once(tape, mine, level=level, nthreads=nthreads, maxp=maxp, li=li):
+                serial[0] += 1
+                if cache is not None:
+                    cache.clear()
+                    probe = falcon.asgi.Request(A.make_scope('GET', '/', '', []), _never_receive)
+                    for k in range(level):
+                        probe.get_header('X-Fill-%d' % k)           # filled through the public API only
+                toks = ['e%d' % i for i in range(nthreads)]
+                jobs = []
+                for i, tok in enumerate(toks):
+                    # a spelling nobody looked up before (insert path), the worker's own token header, a name shared
+                    # by all workers, one that is absent from the request
+                    lookups = [('X-%s' % tok.upper(), 'own-' + tok), ('ACCEPT', 'application/json'),
+                               ('X-Absent-%s' % tok, '<absent>'), ('X-%s' % tok.upper(), 'own-' + tok)]
+                    jobs.append((tok, lookups))
+                fns = [(lambda t=t, lk=lk: header_worker(t, lk)) for t, lk in jobs]
+                want = tuple(tuple(v for _, v in lk) for _, lk in jobs)
+                ch = BoundedChooser(tape, maxp)
+                try:
+                    results = sched.run(fns, ch)
+                except TS.Stuck as ex:
+                    rec.mark_inconclusive('scheduler watchdog: ' + str(ex))
+                    return
+                rec.count('mon.serial_equivalence.E')
+                got = tuple(r[1] if r[0] == 'ok' else ('worker-raised', r[1]) for r in results)
+                if got != want:
+                    rec.violation('asgi-request-on-worker-threads-differs', {
+                        'phase': 'E', 'names_known_before': level, 'threads': nthreads, 'got': got, 'want': want,
+                        'trace': [t[0] for t in sched.trace if t[1] == 'run'][:300]})
+                if sched.yields > 0:
+                    rec.count('E.yields_inside_asgi_request', sched.yields)
+                if mine:
+                    key = ('E', li, nthreads, tuple(c for _, c in tape.log))
+                    rec.case(key)
+                    rec.seen('schedules', key)
+            n_run, trunc = TS.explore_partitioned(once, rec.shard, rec.nshards, cap)
+            if trunc:
+                rec.count('E.truncated')
+            rec.count('E.schedules_level_%d' % level, n_run)
+    if cache is not None:
+        cache.clear()
+
+
 def run(rec):
     rec.rule = ('sets of 2-3 concurrent requests with unique tokens on generated apps (fields+converters, middleware, media, '
                 'errors, path converter, optionally a converter that fails once at compile time); thread schedules at line '
@@ -643,6 +731,10 @@ def run(rec):
             if trunc:
                 rec.count('A.truncated')
             rec.count('A2.schedules_set_%d' % ri, n_run)
+        # ---- phase E: ASGI request objects on worker threads (process-wide header-name cache)
+        sched.is_monitored = asgi_request_lines
+        TS.MON.restart_events()
+        phase_e(rec, sched, quick)
         sched.is_monitored = narrow
         TS.MON.restart_events()
         rec.exhaustive = rec.counters.get('A.truncated', 0) == 0
@@ -773,6 +865,8 @@ def run(rec):
     rec.floor('mon.serial_equivalence.B', 10)
     rec.floor('mon.serial_equivalence.D', 20)
     rec.floor('mon.serial_equivalence.asgi', 30)
+    rec.floor('mon.serial_equivalence.E', 20)
+    rec.floor('E.yields_inside_asgi_request', 100)
     rec.floor('cls.two_threads_in_compile_and_find', 1)
     rec.floor('cls.thread_parked_inside_compile', 1)
 
